@@ -388,3 +388,39 @@ pub fn shifts<T: Scalar>(g: &OGraph, tree: u64, sig: &[Vec<isize>], pin: &[Vec<T
         })
         .collect()
 }
+
+/// adjugate (transpose of the cofactor matrix): inverse = adjugate / det
+pub fn adjugate<T: Scalar>(m: &[Vec<T>]) -> Vec<Vec<T>> {
+    let n = m.len();
+    let mut out = vec![vec![T::rat(0, 1); n]; n];
+    for i in 0..n {
+        for j in 0..n {
+            // cofactor C_ji: delete row j, column i
+            let sub: Vec<Vec<T>> = (0..n).filter(|r| *r != j).map(|r| (0..n).filter(|c| *c != i).map(|c| m[r][c]).collect()).collect();
+            let d = det(&sub);
+            out[i][j] = if (i + j) % 2 == 0 { d } else { -d };
+        }
+    }
+    out
+}
+
+/// specification of the L matrix: sum_e x_e s_ei s_ej
+pub fn l_spec<T: Scalar>(sig: &[Vec<isize>], x: &[T]) -> Vec<Vec<T>> {
+    let l = sig[0].len();
+    (0..l)
+        .map(|i| {
+            (0..l)
+                .map(|j| {
+                    let mut acc = T::rat(0, 1);
+                    for e in 0..sig.len() {
+                        let c = sig[e][i] * sig[e][j];
+                        if c != 0 {
+                            acc = acc + T::rat(c as i64, 1) * x[e];
+                        }
+                    }
+                    acc
+                })
+                .collect()
+        })
+        .collect()
+}
